@@ -1,6 +1,9 @@
 (* SchemaTables.v — table obligations about coq/gen/Schemas.v (re-checked by make on every run). *)
 From Coq Require Import String.
-From Bac Require Import Base Tag Schema Codec.
+From Bac Require Import Base.
+From Bac Require Import Tag.
+From Bac Require Import Schema.
+From Bac Require Import Codec.
 From BacGen Require Import Schemas.
 Open Scope N_scope.
 
